@@ -218,6 +218,9 @@ func (e *Ev) callStatic(fn *types.Func, recv *Term, args []Term, n *ast.CallExpr
 	if _, ok := b.flag("inline"); ok {
 		return e.inlineCall(fn, fd, b, recv, args, n)
 	}
+	if t, handled := e.lemmaCall(fn, key, b, recv, args, n); handled {
+		return t
+	}
 	calleeBV := false
 	if m, ok := b.flag("intmode"); ok && m == "bv" {
 		calleeBV = true
@@ -396,7 +399,10 @@ func (e *Ev) callStatic(fn *types.Func, recv *Term, args []Term, n *ast.CallExpr
 		// opaque by default: a pure callee is just its function symbol unless the unit reveals it
 		goto done
 	}
-	for _, c := range b.clauses("ensures") {
+	for _, c := range append(b.clauses("ensures"), b.clauses("trusted_ensures")...) {
+		if c.Kind == "trusted_ensures" {
+			e.g().Assumed["assumed postcondition of "+key+" (not proved): "+c.Text] = true
+		}
 		ce := mk(postView, pre)
 		ce.results = results
 		ce.resNames = resNames
@@ -734,6 +740,7 @@ func (e *Ev) appendBuiltin(n *ast.CallExpr) Term {
 		k = app("slen", t.S)
 	}
 	newLen := app("+", slen, k)
+	fr := e.freshRef("ap")
 	inPlace := e.g().freshName("apinplace")
 	e.st.declare(inPlace, sBool)
 	e.define(smtEq(inPlace, app("<=", newLen, scap)))
@@ -743,7 +750,6 @@ func (e *Ev) appendBuiltin(n *ast.CallExpr) Term {
 	e.st.declare(roff, sInt)
 	rcap := e.g().freshName("apcap")
 	e.st.declare(rcap, sInt)
-	fr := e.freshRef("ap")
 	e.define(smtEq(rarr, smtIte(inPlace, sarr, fr)))
 	e.define(smtEq(roff, smtIte(inPlace, soff, "0")))
 	e.define(smtIte(inPlace, smtEq(rcap, scap), app(">=", rcap, newLen)))
@@ -911,6 +917,10 @@ func (e *Ev) havocItem(item string, ce *Ev) {
 
 // revealed: does the unit ask for the postconditions of the pure function key (`reveal KEY...`)?
 func (u *Unit) revealed(key string) bool {
+	if u.lemmaReveal != nil {
+		// while a lemma's clauses are instantiated, pure functions stay opaque (the lemma is the fact)
+		return false
+	}
 	for _, b := range []*Block{u.block, u.caseBlock} {
 		if b == nil {
 			continue
